@@ -22,19 +22,24 @@ Definition dec_d_of (bs : list bulk) (pay : list N) : option (list N) :=
 
 Inductive ihop :=
 | IBulk (i : nat)
+| IConc (is : list nat)       (* bulks submitted concurrently, all acknowledged; listed in the order in
+                                 which they reserved their docs offsets (= lock order when the writer's
+                                 mutex is in place) *)
 | ICrashIn (i : nat) (k t kd km : nat)
 | IPower
 | IRestart
 | IRestartCrash.
 
 Definition dummy_bulk := Bulk [] [] 0 [] 0.
-Definition hop_of (bs : list bulk) (o : ihop) : hop :=
+(* the model's atomic step is the locked unit: concurrent bulks are a sequence of HBulk steps *)
+Definition hops_of (bs : list bulk) (o : ihop) : list hop :=
   match o with
-  | IBulk i => HBulk (nth i bs dummy_bulk)
-  | ICrashIn i k t kd km => HCrashIn (nth i bs dummy_bulk) k t kd km
-  | IPower => HPower
-  | IRestart => HRestart
-  | IRestartCrash => HRestartCrash
+  | IBulk i => [HBulk (nth i bs dummy_bulk)]
+  | IConc is => map (fun i => HBulk (nth i bs dummy_bulk)) is
+  | ICrashIn i k t kd km => [HCrashIn (nth i bs dummy_bulk) k t kd km]
+  | IPower => [HPower]
+  | IRestart => [HRestart]
+  | IRestartCrash => [HRestartCrash]
   end.
 
 (* projected file operation, as read from the strace log *)
@@ -76,8 +81,10 @@ Inductive iobs :=
 | IUp (fetches : list (N * fetched)) (searches : list (N * list N)).
                          (* per document ID: fetch result; per token: IDs found, sorted, distinct *)
 
+(* exts: for every child process of the run, (Ext1, Ext2) of the meta blocks found in the real
+   .meta file when the child ended, in file order *)
 Inductive case :=
-| CHist (bs : list bulk) (h : list ihop) (obs : list iobs) (ops : list pop).
+| CHist (bs : list bulk) (h : list ihop) (obs : list iobs) (ops : list pop) (exts : list (list (N * N))).
 
 (* ---------- sorted distinct ---------- *)
 Fixpoint ins (x : N) (l : list N) : list N :=
@@ -96,15 +103,30 @@ Section Run.
   Let dm := dec_m_of bs.
   Let dd := dec_d_of bs.
 
-  Fixpoint run_obs (s : st) (h : list hop) : list mobs * option st :=
+  Definition is_ack (o : fop) := match o with Ack => true | _ => false end.
+
+  (* file operations of one history step, oldest first; a concurrent group answers once *)
+  Definition step_ops (o : ihop) (before after : st) : list fop :=
+    let d := rev (firstn (length (s_ops after) - length (s_ops before)) (s_ops after)) in
+    match o with
+    | IConc _ => match s_proc before with
+                 | Some _ => filter (fun x => negb (is_ack x)) d ++ [Ack]
+                 | None => d
+                 end
+    | _ => d
+    end.
+
+  Fixpoint run_obs (s : st) (h : list ihop) : list mobs * option (list fop) :=
     match h with
-    | [] => ([], Some s)
+    | [] => ([], Some [])
     | o :: r =>
-        match step dm s o with
+        match run_from dm s (hops_of bs o) with
         | Ok s' =>
+            let '(l, f) := run_obs s' r in
+            let f' := option_map (fun x => step_ops o s s' ++ x) f in
             match o, s_proc s' with
-            | HRestart, Some p => let '(l, f) := run_obs s' r in (MUp (s_disk s') p :: l, f)
-            | _, _ => run_obs s' r
+            | IRestart, Some p => (MUp (s_disk s') p :: l, f')
+            | _, _ => (l, f')
             end
         | _ => ([MDied], None)
         end
@@ -129,11 +151,11 @@ Fixpoint forall2b {A B} (f : A -> B -> bool) (a : list A) (b : list B) : bool :=
 
 Definition case_agrees (c : case) : bool :=
   match c with
-  | CHist bs h obs ops =>
-      let '(mo, fin) := run_obs bs st0 (map (hop_of bs) h) in
+  | CHist bs h obs ops exts =>
+      let '(mo, fin) := run_obs bs st0 h in
       forall2b (obs_agree bs) mo obs &&
       match fin with
-      | Some s => list_eqb pop_eqb (map proj (rev (s_ops s))) ops
+      | Some mops => list_eqb pop_eqb (map proj mops) ops
       | None => true
       end
   end.
@@ -186,6 +208,10 @@ Fixpoint spec_walk (bs : list bulk) (h : list ihop) (obs : list iobs) (tr : trac
   | IBulk i :: r =>
       if up tr then spec_walk bs r obs (Track true (acked tr ++ [i]) (tried tr) (pres tr) (remn i (abs tr)))
       else spec_walk bs r obs tr
+  | IConc is :: r =>
+      if up tr then spec_walk bs r obs (Track true (acked tr ++ is) (tried tr) (pres tr)
+                                              (filter (fun y => negb (memn y is)) (abs tr)))
+      else spec_walk bs r obs tr
   | ICrashIn i _ _ _ _ :: r =>
       if up tr then spec_walk bs r obs (Track false (acked tr) (tried tr ++ [i]) (pres tr) (remn i (abs tr)))
       else spec_walk bs r obs tr
@@ -212,7 +238,10 @@ Fixpoint spec_walk (bs : list bulk) (h : list ihop) (obs : list iobs) (tr : trac
 
 Definition case_spec_ok (c : case) : bool :=
   match c with
-  | CHist bs h obs ops => spec_walk bs h obs (Track false [] [] [] [])
+  | CHist bs h obs ops exts =>
+      spec_walk bs h obs (Track false [] [] [] []) &&
+      (* on the real .meta files: every meta block records the docs offset that Replay will derive *)
+      forallb (fun l => ext_chain_ok l 0) exts
   end.
 
 Definition diff_indices (l : list case) : list nat := bad_indices (fun c => negb (case_agrees c)) l.
